@@ -1,4 +1,5 @@
-"""Fail-closed translator: which variant of the seven C04 code sites the current source contains
+"""Fail-closed translator: which variant of the seven C04 code sites (the node-longitude site has two
+alternative repairs, hence eight flags) the current source contains
 -> coq/Gen/C04_variant.v (Definition c04_repo_fixes : c04_fixes).
 
     python c04_variant.py <repo> <coq/Gen dir>
@@ -12,6 +13,10 @@ Recognised shapes (anything else aborts with exit status 1, "tie broken"):
   _populate_edge_centroids:   `_lonlat_rad_to_xyz(np.deg2rad(centroid_lon), np.deg2rad(centroid_lat))` -> true
                               exactly one call `_xyz_to_lonlat_deg(centroid_x, centroid_y, centroid_z,
                               normalize=False)` -> fx_*_norm = false ; normalize=True or no keyword -> true
+ uxarray/grid/grid.py
+  Grid.node_lon and Grid.node_lat (both must agree): the body of `if "node_lon"/"node_lat" not in self._ds:` is
+                              `_set_desired_longitude_range(self._ds); _populate_node_latlon(self)` -> fx_node_after = false
+                              `_populate_node_latlon(self); _set_desired_longitude_range(self._ds)` -> true
  uxarray/grid/validation.py
   _check_normalization:       `if "edge_x" in grid._ds:` testing grid.node_x/y/z  -> fx_edge_check = false,
                               testing grid.edge_x/y/z -> true; likewise "face_x"; the "node_x" branch must test
@@ -75,6 +80,40 @@ def node_wrap(fn):
     raise Unknown("_populate_node_latlon: unrecognised lon expression: " + ast.dump(v)[:200])
 
 
+def node_after(gsrc):
+    tree = ast.parse(gsrc)
+    cls = [n for n in tree.body if isinstance(n, ast.ClassDef) and n.name == "Grid"]
+    if len(cls) != 1:
+        raise Unknown("grid.py: expected one class Grid")
+    res = []
+    for nm in ("node_lon", "node_lat"):
+        getters = [n for n in cls[0].body if isinstance(n, ast.FunctionDef) and n.name == nm
+                   and any(isinstance(d, ast.Name) and d.id == "property" for d in n.decorator_list)]
+        if len(getters) != 1:
+            raise Unknown("grid.py: expected one property getter " + nm)
+        ifs = [n for n in getters[0].body if isinstance(n, ast.If)]
+        if len(ifs) != 1 or ifs[0].orelse:
+            raise Unknown("grid.py: %s: expected one if" % nm)
+        t = ifs[0].test
+        if not (isinstance(t, ast.Compare) and len(t.ops) == 1 and isinstance(t.ops[0], ast.NotIn)
+                and isinstance(t.left, ast.Constant) and t.left.value == nm):
+            raise Unknown("grid.py: %s: unrecognised test" % nm)
+        seq = []
+        for st in ifs[0].body:
+            if not (isinstance(st, ast.Expr) and isinstance(st.value, ast.Call) and isinstance(st.value.func, ast.Name)):
+                raise Unknown("grid.py: %s: unrecognised statement" % nm)
+            seq.append(st.value.func.id)
+        if seq == ["_set_desired_longitude_range", "_populate_node_latlon"]:
+            res.append(False)
+        elif seq == ["_populate_node_latlon", "_set_desired_longitude_range"]:
+            res.append(True)
+        else:
+            raise Unknown("grid.py: %s: unrecognised call sequence %s" % (nm, seq))
+    if res[0] != res[1]:
+        raise Unknown("grid.py: node_lon and node_lat getters differ")
+    return res[0]
+
+
 def centroid_flags(fn):
     cs = calls(fn, "_lonlat_rad_to_xyz")
     if len(cs) != 1 or len(cs[0].args) != 2 or cs[0].keywords:
@@ -135,19 +174,21 @@ def main():
         fx_node = node_wrap(func(tree, "_populate_node_latlon"))
         fdeg, fnorm = centroid_flags(func(tree, "_populate_face_centroids"))
         edeg, enorm = centroid_flags(func(tree, "_populate_edge_centroids"))
+        fx_after = node_after(open(os.path.join(repo, "uxarray", "grid", "grid.py")).read())
         vsrc = open(os.path.join(repo, "uxarray", "grid", "validation.py")).read()
         echeck, fcheck = check_flags(func(ast.parse(vsrc), "_check_normalization"))
     except (Unknown, OSError, SyntaxError) as ex:
         sys.stderr.write("c04_variant: tie broken: %s\n" % ex)
         return 1
     b = {True: "true", False: "false"}
-    flags = [fx_node, fdeg, edeg, fnorm, enorm, echeck, fcheck]
-    txt = ("(* generated by harness/translators/c04_variant.py from uxarray/grid/coordinates.py and\n"
-           "   uxarray/grid/validation.py — do not edit *)\n"
+    flags = [fx_node, fx_after, fdeg, edeg, fnorm, enorm, echeck, fcheck]
+    txt = ("(* generated by harness/translators/c04_variant.py from uxarray/grid/coordinates.py,\n"
+           "   uxarray/grid/grid.py and uxarray/grid/validation.py — do not edit *)\n"
            "From Verif Require Import Base C04.\n"
            "Definition c04_repo_fixes : c04_fixes :=\n"
-           "  {| fx_node_wrap := %s; fx_face_deg := %s; fx_edge_deg := %s; fx_face_norm := %s;\n"
-           "     fx_edge_norm := %s; fx_edge_check := %s; fx_face_check := %s |}.\n" % tuple(b[x] for x in flags))
+           "  {| fx_node_wrap := %s; fx_node_after := %s; fx_face_deg := %s; fx_edge_deg := %s;\n"
+           "     fx_face_norm := %s; fx_edge_norm := %s; fx_edge_check := %s; fx_face_check := %s |}.\n"
+           % tuple(b[x] for x in flags))
     write_if_changed(os.path.join(gen, "C04_variant.v"), txt)
     print(" ".join("1" if x else "0" for x in flags))
     return 0
